@@ -434,9 +434,81 @@ def r20_6(ctx):
               "only %d Result-producing calls found (10 confirmed by reading)" % total)
 
 
+def r20_7(ctx):
+    """counted results reach the exit status: a counter that is not the total guarding Err(ValidationFailedError) must be added to that total on every
+    path from each of its increments to the next document (loop back edge) or to the exit decision - otherwise failures are rendered but exit 0"""
+    from .c14 import counter_roles
+    prog = ctx.prog
+    run = _run(prog)
+    roles = counter_roles(prog)
+    inv = {v: k for k, v in roles.items()}
+    total, doc = inv.get("total_failed"), inv.get("doc_failed")
+    if total is None:
+        raise AnchorError("test::Args::run: the counter guarding ValidationFailedError was not found")
+    # the accumulation statement(s) `total += doc`
+    adds = []
+    for bi, blk in enumerate(run.blocks):
+        for st in blk["stmts"]:
+            if st["k"] == "assign" and st["rv"]["k"] == "bin" and st["rv"]["op"] in ("AddWithOverflow", "Add"):
+                a = st["rv"]["a"].get("copy") or st["rv"]["a"].get("move")
+                b = st["rv"]["b"].get("copy") or st["rv"]["b"].get("move")
+                if a and b and run.place_name(a) == total and doc is not None and run.place_name(b) == doc:
+                    adds.append(bi)
+    # increment sites per counter name: in run itself, or (for closures) the block of run that creates the closure
+    sites = {}
+    for bb, si, nm in _counter_incs(run):
+        sites.setdefault(nm, set()).add(bb)
+    for cb in prog.closures_of(run):
+        names = {nm for _, _, nm in _counter_incs(cb)}
+        if not names:
+            continue
+        for bi, blk in enumerate(run.blocks):
+            for st in blk["stmts"]:
+                if st["k"] == "assign" and st["rv"]["k"] == "agg" and st["rv"].get("agg") == "closure" and st["rv"].get("def") == cb.path:
+                    for nm in names:
+                        sites.setdefault(nm, set()).add(bi)
+    back = run.back_edges()
+    guard_blocks = {bb for bb, si, rv in aggregates(run, "ValidationFailedError")}
+    n = 0
+    for nm, blocks in sorted(sites.items()):
+        role = roles.get(nm)
+        if role in ("total_failed",):
+            n += 1
+            ctx.ok("reaches-exit:" + nm, run.where(), "`%s` is the total that decides the exit status" % nm)
+            continue
+        if role not in ("doc_failed",):
+            continue  # success / skipped / detached counts do not influence the exit status
+        n += 1
+        # outer (documents) loop: the outermost loop containing the accumulation
+        outer_tails = set()
+        for b_, h_ in back:
+            # natural loop of the back edge b_ -> h_
+            body_, stack_ = {h_, b_}, [b_]
+            while stack_:
+                x_ = stack_.pop()
+                for p_ in run.preds[x_]:
+                    if p_ not in body_ and run.dominates(h_, p_):
+                        body_.add(p_)
+                        stack_.append(p_)
+            if any(a_ in body_ for a_ in adds):
+                outer_tails.add(b_)
+        leaks = []
+        for sb in sorted(blocks):
+            esc = set(run.reachable(sb, removed_blocks=adds)) - {sb}
+            hit = sorted((esc & outer_tails) | (esc & guard_blocks))
+            if hit or not adds:
+                leaks.append((run.loc(sb), hit))
+        ctx.check(bool(adds) and not leaks, "reaches-exit:" + nm, run.where(),
+                  "every increment of the per-document failed count `%s` is followed by `%s += %s` before the next document / the exit decision" % (nm, total, nm),
+                  "`%s` is incremented at %s but `%s += %s` is not passed on every path to the next document or to the exit decision: failures of such a document "
+                  "are rendered, yet the process exits 0" % (nm, [l for l, _ in leaks], total, nm))
+    ctx.check(n >= 2, "exit-counters", run.where(), "%d counters feeding the exit status analysed (roles %s)" % (n, roles), "only %d counters with an exit-status role found (%s)" % (n, roles))
+
+
 def run(ctx):
     ctx.run_rule("R20.1", "order: prepend test cases, then the document's, then append's, unfiltered; one execute_all per document [E-FLOW]", r20_1, floor=5)
     ctx.run_rule("R20.3", "one output per test case: every continuing loop path of StatefulExecutor::execute_all pushes exactly one Output; Unknown pads; script executor count gate [E-STATE by segment enumeration]", r20_3, floor=4)
     ctx.run_rule("R20.4", "one outcome per non-detached test case, counted exactly once as failed (iff validate is Err) or succeeded; all zips positional [E-STATE]", r20_4, floor=7)
     ctx.run_rule("R20.6", "error discipline in document discovery/reading: no Result from read_dir / read_test_contents / read_file / parse is dropped or logged-and-skipped [E-SITE]", r20_6, floor=10)
+    ctx.run_rule("R20.7", "counted failures reach the exit status: every increment of the per-document failed count passes `total += count` before the next document / the exit decision [E-PATH must-pass]", r20_7, floor=3)
     ctx.run_rule("R20.5", "exit mapping: Err(ValidationFailedError) iff count_failed > 0; main: 50 / 1 / SUCCESS; no process::exit [E-SITE, E-TABLE]", r20_5, floor=5)
